@@ -42,13 +42,31 @@ guarantees for the block lists the driver computes: blocks cover exactly the non
 def CfgWF (c : Cfg) : Prop :=
   ∀ i, (c.blocks.getD i []).isEmpty = true → ∀ sc ∈ c.sections i, c.isData sc = false
 
-theorem diskOKi_eq_true (s : St) (i : Nat) : s.diskOKi i = true ↔ ∀ x ∈ s.bad, x.1 ≠ i := by
+theorem diskOKi_eq_true (s : St) (i : Nat) :
+    s.diskOKi i = true ↔ (∀ x ∈ s.bad, x.1 ≠ i) ∧ s.cfg.padOK i = true := by
   simp [St.diskOKi]
 
-/-- A piece without any non-padding section is trivially fine on disk. -/
+/-- A piece whose recorded hash is wrong is never "verified on disk". -/
+theorem padOK_of_diskOKi {s : St} {i : Nat} (h : s.diskOKi i = true) : s.cfg.padOK i = true :=
+  ((diskOKi_eq_true s i).1 h).2
+
+/-- A piece that has a section in a stored file has the right recorded hash (`padHashOK` only speaks
+about padding-only pieces). -/
+theorem padOK_of_stored {c : Cfg} {i : Nat}
+    (h : ((c.sections i).filter fun sc => !(c.fpads.getD sc.file false)) ≠ []) : c.padOK i = true := by
+  unfold Cfg.padOK Cfg.padOnly
+  have : ((c.sections i).filter fun sc => !(c.fpads.getD sc.file false)).isEmpty = false := by
+    cases hl : (c.sections i).filter fun sc => !(c.fpads.getD sc.file false) with
+    | nil => exact absurd hl h
+    | cons _ _ => rfl
+  rw [this]
+  simp
+
+/-- A piece without any non-padding section is fine on disk as soon as its recorded hash is the hash of zeroes. -/
 theorem diskOKi_of_no_data (s : St) (h : BadWF s) (i : Nat)
-    (hno : ∀ sc ∈ s.cfg.sections i, s.cfg.isData sc = false) : s.diskOKi i = true := by
+    (hno : ∀ sc ∈ s.cfg.sections i, s.cfg.isData sc = false) (hp : s.cfg.padOK i = true) : s.diskOKi i = true := by
   rw [diskOKi_eq_true]
+  refine ⟨?_, hp⟩
   intro x hx hxi
   obtain ⟨sc, hsc, _, hd⟩ := h x hx
   rw [hxi] at hsc
